@@ -9,7 +9,7 @@ from r_bracket import walk, region_index_type
 
 PRESERVING = {("Vec", "as_slice"), ("array", "as_slice"), ("String", "as_str"), ("str", "as_bytes"),
               ("Deref", "deref"), ("AsRef", "as_ref"), ("Borrow", "borrow"), ("slice", "iter"),
-              ("Iterator", "copied"), ("Iterator", "cloned_"), ("IntoIterator", "into_iter"),
+              ("Iterator", "copied"), ("Iterator", "cloned"), ("IntoIterator", "into_iter"),
               ("Vec", "as_ref"), ("String", "as_ref")}
 PRESERVING_FNITEMS = ("as_slice", "as_str", "as_bytes", "deref", "as_ref", "borrow")
 
